@@ -17,7 +17,7 @@ ID = "C03"
 MANIFEST = {
     "category": "exploration",
     "text": "Complete enumeration: every pair and triple of the four states for each of &, |, ^ is evaluated through the real operators and compared with tables and laws written from the statement (totality, commutativity, associativity, NEUTRAL identity, Boolean agreement, every README row, UNKNOWN soundness and tightness by brute-force replacement). The quantifier is finite, so the run is exhaustive.",
-    "note": "Trusted: CPython, the transcription of the README rows and the independent tables in vlib/props/c03.py. Operands are ConditionFulfilledValue members only. Process configuration by shard (vlib/sut.py; recorded in replay files): plain / parse caches preheated beyond their size / warnings attributed to ahbicht raised as errors / logging fully enabled with every record rendered.",
+    "note": "Trusted: CPython, the transcription of the README rows and the independent tables in vlib/props/c03.py. Operands are ConditionFulfilledValue members only. Process configuration by shard (vlib/sut.py; recorded in replay files): plain / parse caches preheated beyond their size / warnings attributed to ahbicht raised as errors / logging fully enabled with every record rendered; one event loop per process or a new one per call; five process time zones; the hash seed is the shard number; namesakes of ahbicht's marshmallow schema classes are registered.",
     "technique": "exhaustive enumeration of the finite domain against independent truth tables and algebraic laws",
 }
 LEVEL = "exploration"
